@@ -55,13 +55,29 @@ func Commit(db objects.Store, rs ref.Store, id uuid.UUID) (commits map[string]*o
 	if err != nil {
 		return nil, err
 	}
+	if tx.Status == ref.TSCommitted {
+		return nil, fmt.Errorf("transaction %s is already committed", id)
+	}
 	m, err := ref.ListTransactionRefs(rs, id)
+	if err != nil {
+		return nil, err
+	}
+	// branches already moved by an earlier, interrupted Commit of this transaction
+	logs, err := rs.GetTransactionLogs(id)
 	if err != nil {
 		return nil, err
 	}
 	commits = map[string]*objects.Commit{}
 	buf := bytes.NewBuffer(nil)
 	for branch, sum := range m {
+		if rl, ok := logs[ref.HeadRef(branch)]; ok {
+			com, err := objects.GetCommit(db, rl.NewOID)
+			if err != nil {
+				return nil, err
+			}
+			commits[ref.HeadRef(branch)] = com
+			continue
+		}
 		com, err := objects.GetCommit(db, sum)
 		if err != nil {
 			return nil, err
